@@ -21,7 +21,9 @@ Definition positive_sibling (d : decl) (g : grammar) (c : nat) : bool :=
   match get_cls d c with
   | Some k => match c_parent k with
               | Some p => match get_alts (r_alts (g_reg g)) p with
-                          | Some l => existsb (fun s => negb (declared_zero d s)) l
+                          (* available = can be built at all: a production at infinite distance is dropped by backtracking *)
+                          | Some l => existsb (fun s => negb (declared_zero d s) &&
+                                                        match gdist_ty g (TSym s) with Ok v => v <? INF | Err _ => false end) l
                           | None => false end
               | None => false end
   | None => false
